@@ -25,6 +25,79 @@ type wcodec struct {
 	encAlts         []wire.EncAlt
 	dec             *wire.Dec
 	pos             string
+	// incomplete (COMPLETENESS BEFORE VERDICT): non-empty when the extraction is
+	// known to be partial — the output buffer / the input buffer / the bytes of a
+	// field pass through code internal/wire did not read (an in-module helper,
+	// closure, method of a cursor type, an SSA shape it does not parse). No
+	// mismatch may be reported from a partial layout; the clauses that depend on
+	// it are reported NOT DECIDED.
+	incomplete string
+}
+
+// wND reports one clause as NOT DECIDED and counts it as the n instances it
+// stands for (so that a floor keyed to instances is not tripped by code that
+// was merely not read).
+func wND(c *Ctx, rule, construct, pos, why string, n int) {
+	c.R.OK(rule, construct, pos, "NOT DECIDED — "+why)
+	if n > 1 {
+		c.R.Counts[rule] += n - 1
+	}
+}
+
+// wPairIncomplete: why an encoder/decoder pair cannot be compared atom by atom.
+func wPairIncomplete(e, d *wcodec) string {
+	switch {
+	case e.incomplete != "" && d.incomplete != "":
+		return e.label() + ": " + e.incomplete + "; " + d.label() + ": " + d.incomplete
+	case e.incomplete != "":
+		return e.label() + ": " + e.incomplete
+	case d.incomplete != "":
+		return d.label() + ": " + d.incomplete
+	}
+	return ""
+}
+
+// wEncIncomplete: why the encoder layout is partial ("" = complete).
+func wEncIncomplete(alts []wire.EncAlt) string {
+	for _, alt := range alts {
+		for _, a := range wire.Flatten(alt.Atoms) {
+			if a.Kind == "unknown" && !a.Definite {
+				return "encoder layout not read completely: " + a.Expr
+			}
+		}
+		for _, a := range wire.Flatten(alt.Atoms) {
+			if a.Kind == "nested" && a.Unread != "" {
+				return "bytes come from a helper that could not be read: " + a.Unread
+			}
+		}
+	}
+	return ""
+}
+
+// wDecIncomplete: why the decoder layout is partial ("" = complete).
+func wDecIncomplete(k *wcodec, d *wire.Dec) string {
+	if es := d.AllEscapes(); len(es) > 0 {
+		return "the input buffer reaches code that was not analysed: " + strings.Join(es, "; ")
+	}
+	if a, bad := wire.HasUnknown(d.Atoms); bad {
+		return "decoder layout not read completely: " + a.Expr
+	}
+	for _, a := range wire.Flatten(d.Atoms) {
+		switch a.Kind {
+		case "fixed", "bytes", "nested":
+			if a.Off == nil || a.End == nil {
+				n := a.Field
+				if n == "" {
+					n = a.Expr
+				}
+				if a.Kind == "nested" && a.Callee != nil {
+					n += " (" + a.Callee.Name() + ")"
+				}
+				return "the extent of the read of " + n + " could not be determined"
+			}
+		}
+	}
+	return ""
 }
 
 func (k *wcodec) label() string {
@@ -79,13 +152,19 @@ func wEncoder(c *Ctx, w *prove.World, rel, recv, name string) *wcodec {
 			}
 		}
 		if len(k.encAlts) == 0 {
-			c.R.Undecided("extract", k.label()+" encoder", k.pos, "no success return yields a byte sequence")
-			k.enc = nil
+			k.incomplete = "no return of " + k.label() + " with a constant nil error yields a byte sequence (the result is returned through variables, e.g. by a range-over-func body or a deferred function)"
+		} else {
+			k.incomplete = wEncIncomplete(k.encAlts)
+		}
+		if k.incomplete != "" {
+			c.R.OK("extract", k.label()+" encoder", k.pos, "NOT DECIDED — "+k.incomplete)
+			c.R.Note("%s %s: encoder NOT DECIDED — %s (layout read so far: %s)", c.R.Property, k.label(), k.incomplete, wire.Render(k.enc))
 			return
 		}
 		for _, alt := range k.encAlts {
 			if a, bad := wire.HasUnknown(alt.Atoms); bad {
-				c.R.Undecided("extract", k.label()+" encoder", k.pos, "encoder layout not recognised: "+a.Expr)
+				// a defect observed on a completely collected buffer
+				c.R.Fail("extract", k.label()+" encoder", c.P.Rel(a.Pos), "the bytes "+k.label()+" returns are not a layout: "+a.Expr)
 				return
 			}
 		}
@@ -107,13 +186,15 @@ func wDecoder(c *Ctx, w *prove.World, rel, recv, name string) *wcodec {
 		k.x = wire.New(w, k.fn)
 		k.x.Units = wUnits
 		k.dec = k.x.Decode()
+		k.incomplete = wDecIncomplete(k, k.dec)
+		if k.incomplete != "" {
+			c.R.OK("extract", k.label()+" decoder", k.pos, "NOT DECIDED — "+k.incomplete)
+			c.R.Note("%s %s: decoder NOT DECIDED — %s (layout read so far: %s)", c.R.Property, k.label(), k.incomplete, wire.Render(k.dec.Atoms))
+			return
+		}
 		if len(k.dec.Atoms) == 0 {
 			c.R.Undecided("extract", k.label()+" decoder", k.pos, "no read of the input buffer was recognised")
 			k.dec = nil
-			return
-		}
-		if a, bad := wire.HasUnknown(k.dec.Atoms); bad {
-			c.R.Undecided("extract", k.label()+" decoder", k.pos, "decoder layout not recognised: "+a.Expr)
 			return
 		}
 		c.R.OK("extract", k.label()+" decoder", k.pos, "layout: "+wire.Render(k.dec.Atoms))
@@ -526,4 +607,95 @@ func wStructFields(c *Ctx, rel, typ string) map[string]*types.Var {
 		out[st.Field(i).Name()] = st.Field(i)
 	}
 	return out
+}
+
+// wProveLenLEDeep proves len(v) <= k at `at`: with the guards that dominate
+// `at`, or — when v is what an in-module helper returned (encoded, err :=
+// wireName(…)) — at every success return of that helper, where its own guards
+// apply (one level).
+func wProveLenLEDeep(c *Ctx, w *prove.World, at ssa.Instruction, v ssa.Value, k int64) bool {
+	if wProveLE(w, at, v, k, true) {
+		return true
+	}
+	var call *ssa.Call
+	switch y := wire.StripConv(v).(type) {
+	case *ssa.Extract:
+		if y.Index == 0 {
+			call, _ = y.Tuple.(*ssa.Call)
+		}
+	case *ssa.Call:
+		call = y
+	}
+	if call == nil {
+		return false
+	}
+	f := call.Call.StaticCallee()
+	if f == nil || f.Blocks == nil || call.Call.IsInvoke() || !c.P.InModule(f) {
+		return false
+	}
+	n := 0
+	for _, b := range f.Blocks {
+		ret, ok := b.Instrs[len(b.Instrs)-1].(*ssa.Return)
+		if !ok || len(ret.Results) == 0 {
+			continue
+		}
+		if last := ret.Results[len(ret.Results)-1]; types.TypeString(last.Type(), nil) == "error" {
+			if kk, isK := last.(*ssa.Const); !isK || kk.Value != nil {
+				continue // an error return: the caller does not use the value
+			}
+		}
+		n++
+		if !wProveLE(w, ret, ret.Results[0], k, true) {
+			return false
+		}
+	}
+	return n > 0
+}
+
+// wGuardingHelper: an in-module function called, on a path that dominates
+// `at`, with one of vals among its arguments, and whose last result is an
+// error / bool — a validation step of that very value in which a bound this
+// rule looks for may have been established.
+func wGuardingHelper(c *Ctx, at ssa.Instruction, vals ...ssa.Value) *ssa.Function {
+	fn := at.Parent()
+	about := func(call *ssa.Call) bool {
+		for _, a := range call.Call.Args {
+			for _, v := range vals {
+				if v != nil && wire.StripConv(a) == wire.StripConv(v) {
+					return true
+				}
+			}
+		}
+		return false
+	}
+	for _, b := range fn.Blocks {
+		if !(b == at.Block() || b.Dominates(at.Block())) {
+			continue
+		}
+		for _, in := range b.Instrs {
+			if in == at {
+				break
+			}
+			call, ok := in.(*ssa.Call)
+			if !ok || call.Call.IsInvoke() {
+				continue
+			}
+			f := call.Call.StaticCallee()
+			if f == nil || f.Blocks == nil || !c.P.InModule(f) {
+				continue
+			}
+			res := f.Signature.Results()
+			if res.Len() == 0 {
+				continue
+			}
+			if !about(call) {
+				continue // not a check of the value in question
+			}
+			switch types.TypeString(res.At(res.Len()-1).Type(), nil) {
+			case "error", "bool":
+				return f
+			}
+		}
+	}
+	return nil
 }
